@@ -802,6 +802,8 @@ func c08Run(w *W, c Case) {
 		}
 		w.Count("years-whose-lunar-year-leads-in-january", 1)
 	}
+	// (l) the last days of December (in the Julian centuries and the far future the next year's first terms already fall there)
+	roots = append(roots, ref.Stamp{Y: y, M: 12, D: 31, H: 12}, ref.Stamp{Y: y, M: 12, D: 26 + rng.Intn(5), H: rng.Intn(24), Mi: rng.Intn(60)})
 	// (k) the first and last three years of the range get a root every ninth day (index arithmetic on year numbers is
 	// most fragile where year - 4, year / 60 and the like change sign or run off a table)
 	if y <= 3 || y >= maxYear-2 {
